@@ -215,7 +215,7 @@ def gen_call(rng):
         inp = ["nontext", rng.choice(NONTEXT)]
     else:
         form = rng.choice(["str", "str", "str", "bytes", "bytearray",
-                           "stringio", "charstream"])
+                           "stringio", "charstream", "shortstream"])
         inp = [form, gen_text(rng)]
     opts = {}
     for name in ("fuzzy", "fuzzy_with_tokens", "dayfirst", "yearfirst",
@@ -258,8 +258,13 @@ def gen_world_op(rng):
         return ["tick", rng.choice([1, 2, 3600, 86400, 86400 * 366])]
     if r < 0.7:
         return ["jump", rng.choice(CLOCKS)]
-    if r < 0.9:
+    if r < 0.85:
         return ["set_tz", rng.choice(TZ_SETTINGS)]
+    if r < 0.92:
+        # the thread's decimal context (numbers in the text are read through
+        # Decimal): not one of the things the outcome may depend on
+        return ["decimal", rng.choice([28, 9, 6, 3]),
+                rng.choice(["ROUND_HALF_EVEN", "ROUND_DOWN", "ROUND_UP"])]
     return ["new_parser", rng.choice([0, 1]), rng.random() < 0.5,
             rng.random() < 0.5]
 
@@ -389,6 +394,9 @@ def make_input(inp, ctx):
         return io.StringIO(text)
     if form == "charstream":
         return CharStream(text)
+    if form == "shortstream":
+        from dsim.simfs import ShortTextStream
+        return ShortTextStream(text, len(text))
     if form == "faultystream":
         return CharStream(text, inp[2], ctx.fault)
     raise ValueError(form)
@@ -609,6 +617,12 @@ class Env(object):
         elif op[0] == "set_tz":
             self.set_tz(op[1])
             ctx.probe("set_tz")
+        elif op[0] == "decimal":
+            import decimal
+            c = decimal.getcontext()
+            c.prec = op[1]
+            c.rounding = getattr(decimal, op[2])
+            ctx.probe("decimal_context_changed")
         elif op[0] == "new_parser":
             P = self.parser_mod
             self.parsers[op[1]] = P.parser(P.parserinfo(dayfirst=op[2],
@@ -839,7 +853,15 @@ def execute(cls, scenario, ctx):
             # handed over as a text stream and as a str give the same
             # datetime / tokens / exception type (the message quotes the
             # input object and may differ)
-            if op[2][0] in ("stringio", "charstream") and i % 2 == 0:
+            form_ok = op[2][0] in ("stringio", "charstream", "shortstream")
+            if op[2][0] in ("bytes", "bytearray"):
+                # bytes are UTF-8 text: comparable when they decode strictly
+                try:
+                    op[2][1].encode("utf-8")
+                    form_ok = True
+                except UnicodeEncodeError:
+                    pass
+            if form_ok and i % 2 == 0:
                 twin = _copy.deepcopy(op)
                 twin[2] = ["str", op[2][1]]
                 env.restore(snap)
